@@ -305,6 +305,7 @@ func runC03(c *Ctx) {
 			c.count("encoded_" + kind)
 			feat := claimFeatures(cl)
 			inp := map[string]interface{}{"kind": kind, "signer_role": s.role, "token": tok, "features": feat}
+			poisonStep() // (what came before must not matter)
 			d, err := jwt.Decode(tok)
 			c.sum.ImplChecks++
 			if err != nil || dynKind(d) != kind {
@@ -384,6 +385,7 @@ func runC03(c *Ctx) {
 				c.violation("C03: re-encoding decoded claims fails", inp)
 				continue
 			}
+			poisonStep() // (what came before must not matter)
 			d2, err := jwt.Decode(tok2)
 			if err != nil {
 				inp["error"] = err.Error()
